@@ -147,6 +147,14 @@ func TestC17(t *testing.T) {
 		}
 		synctest.Test(t, func(t *testing.T) { c17Run(t, run, sc) })
 	}
+	// redeploys onto the very targets the service already has, then a command that lets go of them
+	for k := 0; k < run.N(24, 600); k++ {
+		desc := map[string]any{"part": "redeploy-onto-the-same-targets", "k": k}
+		if !run.Mine(n+1000+k, desc) {
+			continue
+		}
+		synctest.Test(t, func(t *testing.T) { c17Same(t, run, k, run.Rand(n+1000+k)) })
+	}
 	// real time: commands that dispose targets while probe results that change their state come in
 	// (a command that then never returns is a deadlock, which virtual time cannot show: a goroutine
 	// waiting for a mutex stops the fake clock)
@@ -157,6 +165,95 @@ func TestC17(t *testing.T) {
 		}
 		liveDispose(t, run, g, desc)
 	}
+}
+
+// c17Same: a (rollout) deploy that names exactly the targets the slot already holds replaces one
+// set of probers by another for the same addresses. While the service lives each target sees one
+// probe per interval, not two; once remove, or a deploy onto other targets, has returned it sees
+// none.
+func c17Same(t *testing.T, run *Run, idx int, rng *rand.Rand) {
+	w := NewWorld(t, WorldOpt{})
+	defer w.Close()
+	run.Eval()
+	to := DefTO
+	to.HealthCheckConfig.Interval = c17Interval
+	to.HealthCheckConfig.Timeout = c17ProbeTO
+	const svc = "svc"
+	rollout := rng.IntN(3) == 0
+	nt := 1 + rng.IntN(2)
+	var names []string
+	for i := 0; i < nt; i++ {
+		names = append(names, fmt.Sprintf("sm%d-t%d:80", idx%5, i))
+		w.AddTarget(names[i], nil)
+	}
+	w.AddTarget("base:80", nil)
+	w.AddTarget("other:80", nil)
+	fail := func(sig, format string, a ...any) {
+		run.Violate(sig, fmt.Sprintf(format, a...), map[string]any{"idx": idx, "rollout": rollout, "targets": nt}, func() []string { return w.Trace(200) })
+	}
+	dep := func(ts []string) *CmdRec {
+		if rollout {
+			return w.RolloutDeploy(svc, ts, 5*time.Second, time.Second)
+		}
+		return w.Deploy(svc, ts, DefSO, to, 5*time.Second, time.Second)
+	}
+	if rollout {
+		if c := w.Deploy(svc, []string{"base:80"}, DefSO, to, 5*time.Second, time.Second); c.Err != "" {
+			run.Inconclusive("setup: %s", c.Err)
+			return
+		}
+	}
+	if c := dep(names); c.Err != "" {
+		run.Inconclusive("setup: %s", c.Err)
+		return
+	}
+	time.Sleep(2*c17Interval + 300*time.Millisecond)
+	var last *CmdRec
+	for r := 0; r < 1+rng.IntN(2); r++ {
+		last = dep(names)
+		if last.Err != "" || last.Panic != "" {
+			fail("command-failed", "redeploy onto the same targets failed: %s %s", last.Err, last.Panic)
+			return
+		}
+		time.Sleep(time.Duration(1+rng.IntN(2))*c17Interval + 300*time.Millisecond)
+	}
+	// cadence while in service: at most one probe per interval (and one for the boundary)
+	const watch = 6
+	time.Sleep(watch * c17Interval)
+	for _, name := range names {
+		k := 0
+		for _, p := range w.Target(name).ProbeLog() {
+			if p.Start > last.Ret+Eps && p.Start <= last.Ret+Eps+watch*c17Interval {
+				k++
+			}
+		}
+		if k > watch+1 {
+			fail("probed-by-replaced-deployment:same-targets", "in the %d intervals after the redeploy onto the same targets returned (%v) %s received %d probes: the replaced deployment is still probing it", watch, last.Ret, name, k)
+			return
+		}
+	}
+	final := "remove"
+	var rec *CmdRec
+	if rng.IntN(2) == 0 {
+		rec = w.Remove(svc)
+	} else {
+		final = "deploy-elsewhere"
+		rec = dep([]string{"other:80"})
+	}
+	if rec.Err != "" || rec.Panic != "" {
+		fail("command-failed", "%s failed: %s %s", final, rec.Err, rec.Panic)
+		return
+	}
+	time.Sleep(10 * c17Interval)
+	for _, name := range names {
+		for _, p := range w.Target(name).ProbeLog() {
+			if p.Start > rec.Ret+Eps {
+				fail("probe-after-dispose:same-targets:"+final, "target %s (redeployed onto itself earlier, then %s returned at %v) was probed again at %v", name, final, rec.Ret, p.Start)
+				return
+			}
+		}
+	}
+	run.Class(fmt.Sprintf("same-targets|rollout=%v|nt%d|%s", rollout, nt, final))
 }
 
 type c17Exec struct {
